@@ -130,10 +130,18 @@ func (h *Handler) available(lease *Lease, ip netip.Addr) bool {
 		ip == subnet.DefaultGW || ip == h.session.NICInfo.HostAddr4.IP || ip == h.session.NICInfo.RouterAddr4.IP {
 		return false
 	}
-	if l := h.findByIP(ip); l != nil && l.State != StateFree && !bytes.Equal(l.ClientID, lease.ClientID) {
-		return false
+	return !h.inUse(lease, ip) && h.session.FindIP(ip) == nil
+}
+
+// inUse reports whether ip is the address of a lease held by a client other than lease.
+// It looks at every lease: a free lease that still carries the address must not hide the active one.
+func (h *Handler) inUse(lease *Lease, ip netip.Addr) bool {
+	for _, l := range h.table {
+		if l != lease && l.State != StateFree && l.Addr.IP == ip {
+			return true
+		}
 	}
-	return h.session.FindIP(ip) == nil
+	return false
 }
 
 // allocIPOffer allocates a free IP to the lease entry
